@@ -107,7 +107,10 @@ class ServiceCheck(CheckBase):
         self._check_lock.clear()
         try:
             deadline = Deadline.from_timeout(self._check_timeout)
-            with self._check_wrapper.start(deadline):
+            # wrapper keeps its error forever, so every run needs a fresh one,
+            # and it interrupts only what was entered through it
+            wrapper = self._check_wrapper = DeadlineWrapper()
+            with wrapper.start(deadline), wrapper:
                 value = await self._func()
             if value is not None and not isinstance(value, bool):
                 raise TypeError('Invalid status type: {!r}'.format(value))
